@@ -396,10 +396,28 @@ def trigonal_obligations(ctx, env):
             if T is not None:
                 goals += [z(to_real(Dn[i, j])) == sum(z(to_real(T[i][k])) * Dm[k][j] for k in range(3)) for i in range(3) for j in range(3)]
             ctx.prove(lab + "basis_change", r.pc, conj(goals), clause="direct' == T . direct with a constant rational T", replay=replay, fn=f_m)
-            same = T is not None and extracted.get(key) is not None and T == extracted[key]
-            ctx.ground(lab + "same_matrix_as_choose_trigonal_lattice", bool(same), clause="the default T equals the matrix used by Crystal.choose_trigonal_lattice for the same direction",
-                       detail={"unit_cell": [[str(x) for x in row] for row in T] if T else None, "crystal": [[str(x) for x in row] for row in extracted[key]] if extracted.get(key) else None},
-                       witness={"method": meth}, fn=f_m)
+            have_both = T is not None and extracted.get(key) is not None
+            same = have_both and T == extracted[key]
+
+            def native_same(meth=meth, key=key):
+                """Run-time: the matrix UnitCell.<meth>() applies equals the one Crystal.choose_trigonal_lattice applies to the cell, on a real trigonal crystal."""
+                from chmpy.crystal import Crystal, UnitCell, SpaceGroup, AsymmetricUnit
+                from chmpy import Element
+                uc = UnitCell.hexagonal(11.0, 7.0) if key[0] == "H" else UnitCell.rhombohedral(8.0, 1.2)
+                cr = Crystal(uc, SpaceGroup(146, choice=key[0]), AsymmetricUnit([Element["C"]], np.array([[0.1, 0.2, 0.3]])))
+                d0 = np.array(cr.unit_cell.direct, copy=True)
+                cr.choose_trigonal_lattice(key[1])
+                t_crystal = cr.unit_cell.direct @ np.linalg.inv(d0)
+                t_cell = getattr(uc, meth)().direct @ np.linalg.inv(uc.direct)
+                if np.allclose(t_crystal, t_cell, atol=1e-9):
+                    return None
+                return {"input": {"cell": "hexagonal(11, 7)" if key[0] == "H" else "rhombohedral(8, 1.2 rad)", "space_group": 146}, "observed": {"UnitCell": np.round(t_cell, 6).tolist(), "Crystal": np.round(t_crystal, 6).tolist()}}
+            if have_both:
+                ctx.ground(lab + "same_matrix_as_choose_trigonal_lattice", bool(same), clause="the default T equals the matrix used by Crystal.choose_trigonal_lattice for the same direction",
+                           detail={"unit_cell": [[str(x) for x in row] for row in T], "crystal": [[str(x) for x in row] for row in extracted[key]]}, witness={"method": meth}, fn=f_m)
+            else:       # one of the two matrices could not be read off the symbolic run (not evidence of a difference): decided on the running code instead
+                ctx.pattern(lab + "same_matrix_as_choose_trigonal_lattice", False, clause="the default T equals the matrix used by Crystal.choose_trigonal_lattice for the same direction",
+                            fallback=native_same, fn=f_m)
             set_vectors_safety(ctx, f"unit_cell.UnitCell.{meth}", r, Dn, Dm, f_m, replay)
         ctx.attempt(f"unit_cell.UnitCell.{meth}/ensures/basis_change", ob_uc, fn=f_m)
 
